@@ -464,3 +464,55 @@ func retVals(ret *ssa.Return) []ssa.Value {
 	}
 	return out
 }
+
+// naturalLoop returns the blocks of the natural loop(s) headed by h: h plus every block that
+// reaches a back edge source (a predecessor dominated by h) without passing through h.
+func naturalLoop(h *ssa.BasicBlock) map[*ssa.BasicBlock]bool {
+	out := map[*ssa.BasicBlock]bool{}
+	var work []*ssa.BasicBlock
+	for _, p := range h.Preds {
+		if h == p || h.Dominates(p) {
+			work = append(work, p)
+		}
+	}
+	if len(work) == 0 {
+		return out
+	}
+	out[h] = true
+	for len(work) > 0 {
+		b := work[len(work)-1]
+		work = work[:len(work)-1]
+		if out[b] {
+			continue
+		}
+		out[b] = true
+		work = append(work, b.Preds...)
+	}
+	return out
+}
+
+// aliases returns v plus the loads of every single-assignment cell v is stored into (a local
+// captured by a closure is a heap cell in go/ssa).
+func aliases(v ssa.Value) []ssa.Value {
+	out := []ssa.Value{v}
+	refs := v.Referrers()
+	if refs == nil {
+		return out
+	}
+	for _, ref := range *refs {
+		st, ok := ref.(*ssa.Store)
+		if !ok || st.Val != v {
+			continue
+		}
+		al, ok := st.Addr.(*ssa.Alloc)
+		if !ok || len(storesTo(al)) != 1 {
+			continue
+		}
+		for _, ins := range allInstrs(al.Parent()) {
+			if ld, ok := ins.(*ssa.UnOp); ok && ld.Op == token.MUL && ld.X == ssa.Value(al) {
+				out = append(out, ld)
+			}
+		}
+	}
+	return out
+}
